@@ -11,7 +11,8 @@
       the mapping); key `f._mapper` → content is read from the
       *input* `mapped_dict` (not from `out`), `None`/absent is skipped, a list is converted element-wise, anything
       else is converted as a document, the result is stored at `out[f]`; `FunctionCall` → arguments are read
-      from `out` (`v.args`, or `[k]` when `args` is empty/None), `out[k] = func(*args)`;
+      from `out` (`v.args`, or `[k]` when `args` is empty/None), `out[k] = func(*args)` — `func` is an arbitrary
+      function carried by the entry (`UserFn`), whatever it raises propagates;
       loop 2: string values → `out[k] = deep_get(out, v)`;
       loop 3: `Deleted` → `del out[k]` when present.
     On a non-dict content (reachable through `._mapper` entries) the exceptions Python raises are modelled
@@ -20,7 +21,7 @@
     semantics, also for `start ≤ 0`): `x = _convert(x, m)`; `x["version"] = start + offset + 1` — the version is
     counted by `convert_dict` itself, whatever the mapping did to the `version` key (typedpy commit f017e49).
 
-  Documents are JSON values; objects are association lists in Python's insertion order (`set` replaces in
+  Documents are JSON values (floats as exact ratios); objects are association lists in Python's insertion order (`set` replaces in
   place or appends, `erase` removes), so equality of model results is at least as fine as Python's `==`.
 -/
 namespace Typedpy.Convert
@@ -31,16 +32,19 @@ inductive Json where
   | bool (b : Bool)
   | int (i : Int)
   | str (s : String)
+  | float (num : Int) (den : Nat)   -- a finite float as the exact ratio `as_integer_ratio()` gives (lowest terms, den > 0)
   | list (xs : List Json)
   | obj (kvs : List (String × Json))
   deriving Repr, Inhabited
 
 abbrev Obj := List (String × Json)
 
-/-- the exception classes `convert_dict` can raise on JSON input -/
+/-- the exception classes `convert_dict` can raise on JSON input; `other` = whatever a user function of a
+    `FunctionCall` raises (by class name) -/
 inductive Err where
   | typeErr
   | attrErr
+  | other (name : String)
   deriving DecidableEq, Repr
 
 abbrev R (α : Type) := Except Err α
@@ -65,6 +69,7 @@ def Json.beq : Json → Json → Bool
   | .bool a, .bool b => a == b
   | .int a, .int b => a == b
   | .str a, .str b => a == b
+  | .float a b, .float c d => a == c && b == d
   | .list xs, .list ys => Json.beqList xs ys
   | .obj xs, .obj ys => Json.beqObj xs ys
   | _, _ => false
@@ -108,6 +113,7 @@ def truthy : Json → Bool
   | .bool b => b
   | .int i => i != 0
   | .str s => s != ""
+  | .float n _ => n != 0
   | .list xs => !xs.isEmpty
   | .obj kvs => !kvs.isEmpty
 
@@ -133,8 +139,14 @@ def deepGet (d : Json) (keys : List String) : Json :=
 /-- `deep_key.split(".")` -/
 def splitPath (s : String) : List String := s.splitOn "."
 
-/-! ### the fixed family of pure transforms usable in `FunctionCall(func=…, args=…)`
-    (implemented identically in `harness/suites/convert.py`) -/
+/-! ### `FunctionCall(func=…, args=…)`: the user function is an ARBITRARY function `List Json → R Json` carried
+    by the mapping entry (`Entry.fn`), so every theorem about "all mappings" is a theorem about all user functions
+    (pure, possibly raising, of any arity — a wrong number of positional arguments is the function answering
+    `TypeError`).  On a correspondence run the driver builds the function from the table of calls the harness
+    observed on the real code (`Drive/Convert.lean`).  The named family below only serves the kernel-evaluated
+    examples. -/
+
+abbrev UserFn := List Json → R Json
 
 inductive FnName where
   | ident    -- lambda x: x
@@ -169,7 +181,7 @@ inductive Entry where
   | deleted
   | move (path : List String)
   | sub (m : List (String × Entry))
-  | fn (f : FnName) (args : List String)
+  | fn (f : UserFn) (args : List String)
 
 abbrev Mapping := List (String × Entry)
 
@@ -179,7 +191,7 @@ inductive CEntry where
   | deleted
   | move (path : List String)
   | sub (f : Json → R Json)
-  | fn (f : FnName) (args : List String)
+  | fn (f : UserFn) (args : List String)
 
 abbrev CMapping := List (String × CEntry)
 
@@ -194,7 +206,7 @@ def step1 (k : String) (e : CEntry) (inp out : Obj) : R Obj :=
     | some (.list xs) => bindE (mapE f xs) fun ys => .ok (set k (.list ys) out)
     | some c => bindE (f c) fun c' => .ok (set k c' out)
   | .fn g args =>
-    bindE (applyFn g ((if args.isEmpty then [k] else args).map fun a => getD a out)) fun r =>
+    bindE (g ((if args.isEmpty then [k] else args).map fun a => getD a out)) fun r =>
       .ok (set k r out)
   | .move _ => .ok out
   | .deleted => .ok out
